@@ -21,12 +21,16 @@
 package tchannel
 
 import (
+	"errors"
 	"hash"
 	"hash/crc32"
 	"sync"
 )
 
 var checksumPools [checksumCount]sync.Pool
+
+// errUnknownChecksumType is returned for a fragment whose checksum type byte names no known checksum.
+var errUnknownChecksumType = errors.New("unknown checksum type")
 
 // A ChecksumType is a checksum algorithm supported by TChannel for checksumming call bodies
 type ChecksumType byte
